@@ -2,7 +2,7 @@
    Scope: expressions of Fmt/Ast.v except dict/set literals and closures (those are modelled and tied,
    not proved); statements and declarations are covered by correspondence and the oracle only. *)
 From Coq Require Import ZArith NArith List Bool.
-From Verif Require Import Fmt.Ast Fmt.Print Fmt.Parse Fmt.Wf Fmt.Roundtrip Fmt.Bytes C08.Model C08.Proofs.
+From Verif Require Import Fmt.Ast Fmt.Print Fmt.Parse Fmt.Wf Fmt.Roundtrip Fmt.Bytes Fmt.Text C08.Model C08.Proofs.
 Import ListNotations.
 Local Open Scope nat_scope.
 
@@ -47,15 +47,15 @@ Proof.
 Qed.
 Print Assumptions C08_repaired_arms.
 
-(* T5  still open: closures with parameters — the source spelling parses, the printed spelling does not *)
-Theorem C08_closure_refuted : exists ts e, parse_expr 100 ts = POk (e, []) /\ parse_expr 100 (print_expr e) = PErr.
-Proof. destruct closure_refuted as [A B]. eexists _, _. split; eassumption. Qed.
-Print Assumptions C08_closure_refuted.
+(* T5  regression witness for the repaired closure arm: bare parameter names, the printed form parses back *)
+Theorem C08_closure_fixed : exists e, parse_expr 100 (print_expr e) = POk (e, []) /\ (exists p ps b, e = EClosure (p :: ps) b).
+Proof. destruct closure_fixed as (_ & P & _). exists w_closure. split; [exact P | eexists _, _, _; reflexivity]. Qed.
+Print Assumptions C08_closure_fixed.
 
-(* T6  still open: the Expr::If arm drops both bodies (no parser can invert it) *)
-Theorem C08_if_expr_refuted : forall c t1 e1 t2 e2, print_if_expr c t1 e1 = print_if_expr c t2 e2.
-Proof. exact if_expr_refuted. Qed.
-Print Assumptions C08_if_expr_refuted.
+(* T6  regression witness for the repaired Expr::If arm: the bodies are printed (different bodies, different output) *)
+Theorem C08_if_expr_fixed : exists c t e1 e2, print_if_expr c t (Some e1) <> print_if_expr c t (Some e2).
+Proof. destruct if_expr_fixed as (A & _). eexists _, _, _, _. exact A. Qed.
+Print Assumptions C08_if_expr_fixed.
 
 (* T7  still open: parser_output_wf is FALSE for statements: the parser's desugaring of `t op= rhs` produces an
        AST outside ladder_wf, and formatting it changes the meaning *)
@@ -76,3 +76,16 @@ Print Assumptions C08_bytes_escape_roundtrip.
 Theorem C08_apostrophe_not_unescaped : forall rest, scan_step 34%Z (92 :: 39 :: rest)%Z = Some (inr ([92; 39]%Z, rest)).
 Proof. exact apostrophe_kept. Qed.
 Print Assumptions C08_apostrophe_not_unescaped.
+
+(* T10  f-string literal parts at character level (repair: escape_string + brace doubling): scanning what the printer
+        writes gives back exactly the characters, for EVERY list of characters; and the verbatim printing it replaces is
+        refuted (a brace starts an expression part, a quote ends the literal) *)
+Theorem C08_fstring_literal_roundtrip : forall s rest fuel, length s < fuel ->
+  fscan fuel 34%Z (escape_text s ++ 34%Z :: rest) = Some (s, rest).
+Proof. exact fscan_escape. Qed.
+Print Assumptions C08_fstring_literal_roundtrip.
+
+Theorem C08_fstring_verbatim_refuted :
+  fscan_step 34%Z [123; 120; 125; 34]%Z = FExpr [120; 125; 34]%Z /\ fscan 10 34%Z [97; 34; 98; 34]%Z = Some ([97]%Z, [98; 34]%Z).
+Proof. exact verbatim_refuted. Qed.
+Print Assumptions C08_fstring_verbatim_refuted.
